@@ -4,13 +4,16 @@ from __future__ import annotations
 
 import ast
 
-from engine.cfg import CFG, normalise_compare, atoms
+from engine.cfg import CFG, normalise_compare, atoms, A
 from engine.model import src, stmt_key, dotted, AnalysisError
 from engine import pat
 from engine.util import own_nodes, calls_with_nodes, where
 from rules.c14 import Tokenizer
 
 RULES = {
+    "R-15.11": "a normalised copy replaces its source: where a function of dns.dnssec fills a fresh local collection inside `for x in <parameter>` with the element x after rebinding it (the caller's algorithms turned into DSDigest members), the parameter is not read again after that loop - the raw value (a set of strings) does not contain the normalised items, so a membership test against it silently drops every CDS digest",
+    "R-15.10": "the origin is data, not text to be normalised: no to_wire / _to_wire / to_digestable of dns.name, dns.rdata, dns.rdataset, dns.rrset and dns.rdtypes.* rebinds its `origin` parameter - only the types of RFC 4034 6.2 lower-case embedded names, and they do it label by label under `canonicalize`; an origin folded up front changes the canonical form of NSEC, HIP, LP, ... records that store names relative",
+    "R-15.9": "exact bitmaps at delegation points (RFC 4035 2.3): the NSEC of a delegation point lists NS and DS (plus RRSIG and NSEC) only - the type filter of _txn_add_nsec, evaluated by the checker for delegated in {False, True} and types {A, NS, TXT, AAAA, DS}, keeps a type iff (not delegated or type in {NS, DS}); both call sites pass the delegation status of the name the NSEC is FOR (recorded after the call, from the walk's delegation marker alone)",
     "R-15.1": "a record type lower-cases the names in its RDATA iff it is listed in RFC 4034 6.2 as amended by RFC 6840 5.1 (dataflow of _to_wire's canonicalize parameter into every embedded Name.to_wire)",
     "R-15.8": "Name.canonicalize lower-cases every label on every path: its only return value is a Name built from `x.lower()` of each label (a 'nothing to do' shortcut decided with isupper()/islower() misjudges mixed-case labels)",
     "R-15.7": "canonical RRsets contain no duplicates and signing a zone twice leaves one NSEC per name: equal records hash equally (C07 R-07.3 adopted) and merges go through Rdataset.add, which keeps singleton types single (C07 R-07.7 adopted)",
@@ -77,6 +80,38 @@ def _name_calls(model, f, env, out, depth=0, seen=None):
             continue  # not a domain-name encoder call (Bitmap/APLItem/params/options take fewer arguments)
         out.append((c, ck, nk, f))
 
+
+
+def check_name_canonical_wire(model, rep, rule):
+    """Name.to_wire(canonicalize=True) folds every label it emits (shared with C06: names that compare equal must have one canonical form)."""
+    ntw = model.func("dns.name.Name.to_wire")
+    # ---------------------------------------------------------------- R-15.5
+    cfg = CFG(ntw.node, implicit_exc=False)
+    loopvars = {src(n.target) for n in ast.walk(ntw.node) if isinstance(n, ast.For) and isinstance(n.target, ast.Name) and "labels" in src(n.iter)}
+    ctests = [t_ for t_ in cfg.nodes if t_.kind == "test" and atoms(normalise_compare(t_.ast.test)) == [("canonicalize", "truthy", "")]]
+    n_emit = 0
+    for n in cfg.stmts():
+        raw = None
+        a = n.ast
+        if isinstance(a, ast.AugAssign) and isinstance(a.op, ast.Add) and isinstance(a.value, ast.Name) and a.value.id in loopvars:
+            raw = a
+        elif isinstance(a, ast.Expr) and isinstance(a.value, ast.Call) and isinstance(a.value.func, ast.Attribute) and a.value.func.attr in ("write", "extend") and a.value.args \
+                and isinstance(a.value.args[0], ast.Name) and a.value.args[0].id in loopvars:
+            raw = a
+        if raw is None:
+            continue
+        n_emit += 1
+        okk = any(cfg.edge_dominated(n.id, {(t_.id, "f")}) and any(".lower()" in src(b) for b in t_.ast.body) for t_ in ctests)
+        rep.check(okk, rule, ntw.qualname, where(ntw, raw), f"`{src(raw)}` only when not canonicalizing; the other arm folds to lower case",
+                  f"`{src(raw)}` emits a label as written even when canonicalize is set: digests and signatures over names with upper-case letters are wrong", stmt="raw-label " + src(raw))
+    n_nested = 0
+    for c in ast.walk(ntw.node):
+        if isinstance(c, ast.Call) and isinstance(c.func, ast.Attribute) and c.func.attr in ("to_wire", "to_digestable") and not (isinstance(c.func.value, ast.Name) and c.func.value.id == "struct"):
+            n_nested += 1
+            passes = any(k.arg == "canonicalize" and src(k.value) == "canonicalize" for k in c.keywords) or (len(c.args) >= 4 and src(c.args[3]) == "canonicalize")
+            rep.check(passes, rule, ntw.qualname, where(ntw, c), f"`{src(c)[:50]}` passes canonicalize on",
+                      f"`{src(c)[:50]}` encodes part of the name without passing `canonicalize` on: that part (e.g. the origin of a relative name) is not folded in the canonical form", stmt="nested " + src(c.func))
+    rep.floor(rule, n_emit + n_nested, 3)
 
 def run(model, rep, tier):
     rdata = model.cls("dns.rdata.Rdata")
@@ -147,33 +182,7 @@ def run(model, rep, tier):
     rep.check("if compress is not None" in t or "if compress:" in t or "compress is None" in t, "R-15.2", ntw.qualname, where(ntw, ntw.node), "Name.to_wire compresses only when a table is given",
               "Name.to_wire no longer makes compression conditional on the table", stmt="conditional-compress")
 
-    # ---------------------------------------------------------------- R-15.5
-    cfg = CFG(ntw.node, implicit_exc=False)
-    loopvars = {src(n.target) for n in ast.walk(ntw.node) if isinstance(n, ast.For) and isinstance(n.target, ast.Name) and "labels" in src(n.iter)}
-    ctests = [t_ for t_ in cfg.nodes if t_.kind == "test" and atoms(normalise_compare(t_.ast.test)) == [("canonicalize", "truthy", "")]]
-    n_emit = 0
-    for n in cfg.stmts():
-        raw = None
-        a = n.ast
-        if isinstance(a, ast.AugAssign) and isinstance(a.op, ast.Add) and isinstance(a.value, ast.Name) and a.value.id in loopvars:
-            raw = a
-        elif isinstance(a, ast.Expr) and isinstance(a.value, ast.Call) and isinstance(a.value.func, ast.Attribute) and a.value.func.attr in ("write", "extend") and a.value.args \
-                and isinstance(a.value.args[0], ast.Name) and a.value.args[0].id in loopvars:
-            raw = a
-        if raw is None:
-            continue
-        n_emit += 1
-        okk = any(cfg.edge_dominated(n.id, {(t_.id, "f")}) and any(".lower()" in src(b) for b in t_.ast.body) for t_ in ctests)
-        rep.check(okk, "R-15.5", ntw.qualname, where(ntw, raw), f"`{src(raw)}` only when not canonicalizing; the other arm folds to lower case",
-                  f"`{src(raw)}` emits a label as written even when canonicalize is set: digests and signatures over names with upper-case letters are wrong", stmt="raw-label " + src(raw))
-    n_nested = 0
-    for c in ast.walk(ntw.node):
-        if isinstance(c, ast.Call) and isinstance(c.func, ast.Attribute) and c.func.attr in ("to_wire", "to_digestable") and not (isinstance(c.func.value, ast.Name) and c.func.value.id == "struct"):
-            n_nested += 1
-            passes = any(k.arg == "canonicalize" and src(k.value) == "canonicalize" for k in c.keywords) or (len(c.args) >= 4 and src(c.args[3]) == "canonicalize")
-            rep.check(passes, "R-15.5", ntw.qualname, where(ntw, c), f"`{src(c)[:50]}` passes canonicalize on",
-                      f"`{src(c)[:50]}` encodes part of the name without passing `canonicalize` on: that part (e.g. the origin of a relative name) is not folded in the canonical form", stmt="nested " + src(c.func))
-    rep.floor("R-15.5", n_emit + n_nested, 3)
+    check_name_canonical_wire(model, rep, "R-15.5")
 
     # ---------------------------------------------------------------- R-15.3
     sd = model.func("dns.dnssec._make_rrsig_signature_data")
@@ -272,19 +281,119 @@ def run(model, rep, tier):
         rep.check(t.startswith("if delegation and name.is_subdomain(delegation): continue elif txn.get(name, dns.rdatatype.NS) and name != zone.origin: delegation = name else: delegation = None"),
                   "R-15.4", sz.qualname, where(sz, first), "names beneath the current delegation are skipped; a non-apex NS owner starts a delegation",
                   "delegation tracking in the NSEC walk changed", stmt="delegation-tracking")
-        t = " ".join(src(loops[0]).split())
-        rep.check("if last_secure is not None: _txn_add_nsec(txn, last_secure, name, zone.rdclass, rrsig_ttl, rrset_signer) last_secure = name" in t, "R-15.4", sz.qualname, where(sz, loops[0]),
+        lcalls = [c for c in ast.walk(loops[0]) if isinstance(c, ast.Call) and src(c.func) == "_txn_add_nsec"]
+        guard_ok = False
+        for nd in ast.walk(loops[0]):
+            if isinstance(nd, ast.If) and A("last_secure", "is not", "None") in atoms(normalise_compare(nd.test)) and lcalls and any(lcalls[0] in list(ast.walk(b)) for b in nd.body):
+                guard_ok = True
+        after = False
+        for st_ in loops[0].body:
+            if lcalls and lcalls[0] in list(ast.walk(st_)):
+                after = True
+            elif after and stmt_key(st_) == "last_secure = name":
+                after = "linked"
+        rep.check(len(lcalls) == 1 and guard_ok and after == "linked" and [src(a) for a in lcalls[0].args[:3]] == ["txn", "last_secure", "name"], "R-15.4", sz.qualname, where(sz, loops[0]),
                   "each secure name gets an NSEC pointing to the next secure name", "NSEC linking changed", stmt="linking")
     t = " ".join(src(szn).split())
     rep.check(pat.has_expr(szn, "_txn_add_nsec(txn, last_secure, zone.origin, ...)"), "R-15.4", sz.qualname, where(sz, sz.node),
               "the last name wraps to the origin", "the chain no longer wraps to the origin", stmt="wrap")
     an = model.func("dns.dnssec._sign_zone_nsec.<locals>._txn_add_nsec")
-    ann, _ = pat.canon(an.node, ["__mandatory_types = set([dns.rdatatype.RdataType.RRSIG, dns.rdatatype.RdataType.NSEC])", "__node = txn.get_node(name)", "__types = set([__rdataset.rdtype for __rdataset in __node.rdatasets]) | __mandatory_types",
-                                 "__windows = Bitmap.from_rdtypes(list(__types))"])
-    t = " ".join(src(ann).split())
-    rep.check("mandatory_types = set([dns.rdatatype.RdataType.RRSIG, dns.rdatatype.RdataType.NSEC])" in t and
-              "types = set([rdataset.rdtype for rdataset in node.rdatasets]) | mandatory_types" in t and "windows = Bitmap.from_rdtypes(list(types))" in t, "R-15.4", an.qualname, where(an, an.node),
+    comps = [c for c in ast.walk(an.node) if isinstance(c, (ast.ListComp, ast.SetComp, ast.GeneratorExp)) and len(c.generators) == 1 and src(c.generators[0].iter).endswith(".rdatasets")
+             and isinstance(c.elt, ast.Attribute) and c.elt.attr == "rdtype" and src(c.elt.value) == src(c.generators[0].target)]
+    mand = [x for x in ast.walk(an.node) if isinstance(x, ast.Assign) and isinstance(x.targets[0], ast.Name) and {"dns.rdatatype.RdataType.RRSIG", "dns.rdatatype.RdataType.NSEC"} <= {src(a) for a in ast.walk(x.value) if isinstance(a, ast.Attribute)}]
+    from_types = [c for c in ast.walk(an.node) if isinstance(c, ast.Call) and src(c.func) == "Bitmap.from_rdtypes"]
+    union_ok = len(comps) == 1 and len(mand) == 1 and any(isinstance(b, ast.BinOp) and isinstance(b.op, ast.BitOr) and comps[0] in list(ast.walk(b)) and src(mand[0].targets[0]) in {src(x) for x in ast.walk(b) if isinstance(x, ast.Name)}
+                                                         for b in ast.walk(an.node))
+    rep.check(union_ok and len(from_types) == 1, "R-15.4", an.qualname, where(an, an.node),
               "bitmap = types present at the node + RRSIG + NSEC", "NSEC type bitmap composition changed", stmt="bitmap")
+    # ---------------------------------------------------------------- R-15.9
+    from engine.minieval import evaluate as _ev9, Unsupported as _Un9
+    if len(comps) == 1:
+        gen9 = comps[0].generators[0]
+        params9 = [a.arg for a in an.node.args.args]
+        free9 = {x.id for i_ in gen9.ifs for x in ast.walk(i_) if isinstance(x, ast.Name)} & set(params9)
+        if not gen9.ifs or len(free9) != 1:
+            rep.bad("R-15.9", an.qualname, where(an, comps[0]), f"`{src(comps[0])[:70]}` takes every rdataset of the node, whatever the node is: the NSEC of a delegation point that also holds glue (`sub NS sub` / `sub A ...`) "
+                    "lists A/AAAA, for which the parent is not authoritative (RFC 4035 2.3: those bits MUST be clear)", stmt="delegation-bitmap")
+        else:
+            P9 = next(iter(free9))
+            fold9 = lambda nd: model.const(an.module, nd)  # noqa: E731
+            env9 = {}
+            for x in ast.walk(an.node):
+                if isinstance(x, ast.Assign) and isinstance(x.targets[0], ast.Name) and isinstance(x.value, (ast.Tuple, ast.List, ast.Set)):
+                    try:
+                        env9[x.targets[0].id] = _ev9(x.value, {}, fold9)
+                    except (_Un9, AnalysisError):
+                        pass
+            try:
+                T9 = {k: int(model.const(an.module, ast.parse("dns.rdatatype.RdataType." + k, mode="eval").body)) for k in ("A", "NS", "TXT", "AAAA", "DS")}
+                wrong9 = []
+                for dg in (False, True):
+                    for k, v in T9.items():
+                        e9 = dict(env9)
+                        e9[P9] = dg
+                        e9[src(gen9.target) + ".rdtype"] = v
+                        kept = all(bool(_ev9(i_, e9, fold9)) for i_ in gen9.ifs)
+                        if kept != ((not dg) or k in ("NS", "DS")):
+                            wrong9.append(f"{k} is {'kept' if kept else 'dropped'} when {P9}={dg}")
+                rep.check(not wrong9, "R-15.9", an.qualname, where(an, comps[0]), f"type filter evaluated for {P9} in (False, True) x {sorted(T9)}: all types at ordinary names, NS and DS only at a delegation point",
+                          f"the type filter of the NSEC bitmap is wrong: {'; '.join(wrong9[:3])}", stmt="delegation-bitmap")
+            except (_Un9, AnalysisError) as e:
+                rep.blind("R-15.9", an.qualname, where(an, comps[0]), f"type filter not evaluable: {e}", stmt="delegation-bitmap")
+            idx9 = params9.index(P9)
+            allcalls = [c for c in ast.walk(szn) if isinstance(c, ast.Call) and src(c.func) == "_txn_add_nsec"]
+            for c9 in allcalls:
+                a9 = c9.args[idx9] if len(c9.args) > idx9 else next((k.value for k in c9.keywords if k.arg == P9), None)
+                if not isinstance(a9, ast.Name):
+                    rep.bad("R-15.9", sz.qualname, where(sz, c9), f"`{src(c9)[:60]}` does not pass the delegation status of `{src(c9.args[1]) if len(c9.args) > 1 else '?'}` (parameter `{P9}`)", stmt="delegation-status " + ("wrap" if c9 not in list(ast.walk(loops[0])) else "link"))
+                    continue
+                D9 = a9.id
+                defs9 = [x for x in ast.walk(szn) if isinstance(x, ast.Assign) and any(isinstance(t_, ast.Name) and t_.id == D9 for t_ in x.targets)]
+                init9 = [x for x in defs9 if x in szn.body and isinstance(x.value, ast.Constant) and x.value.value is False]
+                inloop9 = [x for x in defs9 if okk and x in loops[0].body]
+                pos_call = next((i_ for i_, st_ in enumerate(loops[0].body) if any(c is cc for cc in ast.walk(st_) for c in allcalls if c in list(ast.walk(loops[0])))), -1) if okk else -1
+                good9 = len(defs9) == 2 and len(init9) == 1 and len(inloop9) == 1 and loops[0].body.index(inloop9[0]) > pos_call >= 0 \
+                    and {x.id for x in ast.walk(inloop9[0].value) if isinstance(x, ast.Name)} - {"bool"} == {"delegation"}
+                rep.check(good9, "R-15.9", sz.qualname, where(sz, c9), f"`{D9}` is the delegation status of last_secure: False at first, then recorded from `delegation` after each NSEC is emitted",
+                          f"`{D9}` is not (False before the walk, then set from the walk's `delegation` marker alone after the NSEC call): the NSEC of a name gets the bitmap filter of a different name",
+                          stmt="delegation-status " + ("wrap" if c9 not in list(ast.walk(loops[0])) else "link"))
+            rep.floor("R-15.9", len(allcalls), 2)
+    # ---------------------------------------------------------------- R-15.10
+    n10 = 0
+    for f10 in sorted(model.all_functions(), key=lambda g: g.qualname):
+        if f10.node.name not in ("to_wire", "_to_wire", "to_digestable") or "origin" not in f10.params() or not (f10.module.name.startswith("dns.rdtypes") or f10.module.name in ("dns.name", "dns.rdata", "dns.rdataset", "dns.rrset")):
+            continue
+        n10 += 1
+        reb = [x for x in ast.walk(f10.node) if isinstance(x, ast.Name) and x.id == "origin" and isinstance(x.ctx, ast.Store)]
+        if reb:
+            rep.bad("R-15.10", f10.qualname, where(f10, reb[0]), "`origin` is rebound before it is used: the labels of the origin are emitted through a changed copy (e.g. canonicalize()d), so records whose embedded names must keep "
+                    "their case (NSEC, HIP, LP, IPSECKEY ...) and that are stored relative get the origin's case folded in their canonical form - RRSIG input and ZONEMD digests differ from the RFC's", stmt="origin-rebound")
+    rep.floor("R-15.10", n10, 60)
+    rep.ok("R-15.10", "dns", "dns/", f"{n10} to_wire/_to_wire/to_digestable functions use the origin they were given", stmt="origin-not-rebound")
+    # ---------------------------------------------------------------- R-15.11
+    n11 = 0
+    for f11 in sorted(model.all_functions(), key=lambda g: g.qualname):
+        if f11.module.name != "dns.dnssec":
+            continue
+        params11 = set(f11.params())
+        for lp11 in [x for x in ast.walk(f11.node) if isinstance(x, ast.For) and isinstance(x.iter, ast.Name) and x.iter.id in params11]:
+            if not isinstance(lp11.target, ast.Name) or not any(isinstance(x, ast.Name) and x.id == lp11.target.id and isinstance(x.ctx, ast.Store) for st_ in lp11.body for x in ast.walk(st_)):
+                continue  # the element is not normalised (rebound) in the loop: a filter or a mapping, not a normalised copy
+            fills = {c.func.value.id for c in ast.walk(lp11) if isinstance(c, ast.Call) and isinstance(c.func, ast.Attribute) and c.func.attr in ("add", "append") and isinstance(c.func.value, ast.Name)
+                     and c.func.value.id not in params11 and len(c.args) == 1 and isinstance(c.args[0], ast.Name) and c.args[0].id == lp11.target.id}
+            empties = {t_.id for x in ast.walk(f11.node) if isinstance(x, ast.Assign) and x.lineno < lp11.lineno and ((isinstance(x.value, ast.Call) and dotted(x.value.func) in ("set", "list", "dict") and not x.value.args) or
+                                                                                                                   (isinstance(x.value, (ast.List, ast.Set, ast.Dict)) and not getattr(x.value, "elts", getattr(x.value, "keys", []))))
+                       for t_ in x.targets if isinstance(t_, ast.Name)}
+            copies = sorted(fills & empties)
+            if not copies:
+                continue
+            n11 += 1
+            p11 = lp11.iter.id
+            late = [x for x in ast.walk(f11.node) if isinstance(x, ast.Name) and x.id == p11 and isinstance(x.ctx, ast.Load) and x.lineno > lp11.end_lineno]
+            rep.check(not late, "R-15.11", f11.qualname, where(f11, late[0] if late else lp11), f"`{p11}` is read only while its normalised copy is being built",
+                      f"`{p11}` (the caller's raw value) is read after the loop that builds its normalised copy `{copies[0]}`: e.g. `digest_type in {p11}` never matches when the caller passed mnemonics, so DS records that the CDS RRset calls for are dropped",
+                      stmt=f"normalised-copy of {p11}")
+    rep.floor("R-15.11", n11, 1)
     rep.assume("hashlib digests and base64.b32encode are trusted; numeric results (key tags, digests, bitmap octets) are not computed")
     bm = model.func("dns.rdtypes.util.Bitmap.from_rdtypes")
     sl = [x for x in ast.walk(bm.node) if isinstance(x, ast.Subscript) and isinstance(x.slice, ast.Slice) and isinstance(x.slice.upper, ast.Name) and src(x.slice.lower or ast.Constant(0)) in ("0", "None")]
@@ -317,6 +426,20 @@ def run(model, rep, tier):
 
 
 WITNESSES = [
+    {"id": "c15-nsec-bitmap-ignores-delegation", "rule": "R-15.9", "file": "dns/dnssec.py", "expect": "fires",
+     "old": "                        if not delegated or rdataset.rdtype in delegation_types\n", "new": ""},
+    {"id": "c15-nsec-bitmap-filter-drops-ds", "rule": "R-15.9", "file": "dns/dnssec.py", "expect": "fires",
+     "old": "        delegation_types = (dns.rdatatype.RdataType.NS, dns.rdatatype.RdataType.DS)", "new": "        delegation_types = (dns.rdatatype.RdataType.NS,)"},
+    {"id": "c15-nsec-delegation-status-of-next-name", "rule": "R-15.9", "file": "dns/dnssec.py", "expect": "fires",
+     "old": "                last_delegated,\n            )\n        last_secure = name\n", "new": "                bool(delegation),\n            )\n        last_secure = name\n"},
+    {"id": "c15-twin-nsec-filter-spelled-inline", "rule": "R-15.9", "file": "dns/dnssec.py", "expect": "silent",
+     "old": "                        if not delegated or rdataset.rdtype in delegation_types\n", "new": "                        if (not delegated) or rdataset.rdtype in (dns.rdatatype.RdataType.DS, dns.rdatatype.RdataType.NS)\n"},
+    {"id": "c15-digestable-folds-origin", "rule": "R-15.10", "file": "dns/rdata.py", "expect": "fires",
+     "old": "        wire = self.to_wire(origin=origin, canonicalize=True)\n        assert wire is not None  # for mypy\n        return wire", "new": "        if origin is not None:\n            origin = origin.canonicalize()\n        wire = self.to_wire(origin=origin, canonicalize=True)\n        assert wire is not None  # for mypy\n        return wire"},
+    {"id": "c15-cds-filter-reads-raw-algorithms", "rule": "R-15.11", "file": "dns/dnssec.py", "expect": "fires",
+     "old": "            if rdata.digest_type in _algorithms:", "new": "            if rdata.digest_type in algorithms:"},
+    {"id": "c15-twin-cds-filter-local-alias", "rule": "R-15.11", "file": "dns/dnssec.py", "expect": "silent",
+     "old": "            if rdata.digest_type in _algorithms:", "new": "            wanted = _algorithms\n            if rdata.digest_type in wanted:"},
     {"id": "c15-canonicalize-shortcut-isupper", "rule": "R-15.8", "file": "dns/name.py", "expect": "fires",
      "old": "        return Name([x.lower() for x in self.labels])", "new": "        if not any(x.isupper() for x in self.labels):\n            return self\n        return Name([x.lower() for x in self.labels])"},
     {"id": "c15-last-secure-truth-tested", "rule": "R-15.6", "file": "dns/dnssec.py", "expect": "fires",
